@@ -25,6 +25,27 @@ type vgen struct {
 	forceType  reflect.Type // constraint sweep: the struct type whose field forceField is driven
 	forceField int
 	forceMode  string // a pending mode, or "present" / "absent" for an OPTIONAL field
+	// fragmented lengths (X.691 11.9.3.8): while longLeft > 0 the next string whose length is a general length
+	// (no upper bound, or one of 64K and more) takes one of longLens; longMax caps the choice (0 = no cap)
+	longLeft int
+	longMax  int
+	longNext int // rotates through longLens so that a run covers all of them
+}
+
+// lengths around the fragmentation boundaries: one fragment and nothing/one item after it, two and three fragments,
+// 64K − 1, exactly 64K (four fragments, final length 0), 64K + 1, a fragment and a long rest, two full 64K fragments
+var longLens = []int{16383, 16384, 16385, 32768, 49152, 65535, 65536, 65537, 70000, 131072}
+
+// longLength picks the next long length that fits under ub (ub < 0: unbounded) and the cap.
+func (g *vgen) longLength(ub int64) (int, bool) {
+	for k := 0; k < len(longLens); k++ {
+		n := longLens[(g.longNext+k)%len(longLens)]
+		if (ub < 0 || int64(n) <= ub) && (g.longMax == 0 || n <= g.longMax) {
+			g.longNext = (g.longNext + k + 1) % len(longLens)
+			return n, true
+		}
+	}
+	return 0, false
 }
 
 // take consumes the pending sweep mode if it is one of the given ones.
@@ -161,6 +182,12 @@ func (g *vgen) length(p tags.Params, typical int) (n int, ok bool) {
 		if ub >= 0 {
 			g.injected = "size-above-ub"
 			return int(ub + 1), true
+		}
+	}
+	if g.longLeft > 0 && typical > 4 && (ub < 0 || ub > 65535) {
+		if n, ok := g.longLength(ub); ok {
+			g.longLeft--
+			return n, true
 		}
 	}
 	if ub >= 0 && g.inject("size-above-ub") {
